@@ -4,7 +4,10 @@ handlers that fail, read errors.  Oracle (implementation only): no panic/abort, 
 complete well-framed response, error status for requests that cannot be parsed or served.
 The input classes added by the generator audit live in vlib/gen_c04.py (own batches, own trees, other
 configurations); when the scripted stream refuses bytes (failed write, zero-length accept, failed flush)
-the connection is broken and only the no-panic clause is judged."""
+the connection is broken and only the no-panic clause is judged.
+Second audit pass (AUDIT2.md): `X.feature_batches` / `X.feature_config_batches` / `X.repeat_batches` (compared with the model) and
+`X.history_batches` (oracle only: the tree is rebuilt between two requests of one process); the harness processes run under a small
+limit of open files (`lower_fd_limit`) so that a descriptor an answer path keeps shows within one batch."""
 from vlib import common as C, serve as S, reqgen as G, strict_http as H, servecheck as K, gen_c04 as X
 
 DRIVERS = ['Serve']   # model driver files this check runs: scopes translator failures to the tables they (and the proofs) import
@@ -136,6 +139,10 @@ def build(rng, tier):
         batches.append((tree, cases))
     # the input classes added by the generator audit (vlib/gen_c04.py), in batches of their own
     batches += X.extra_batches(rng.fork('c04-audit'), tier)
+    # second audit pass: the relations between two inputs that a feature added on this path would hinge on (headers the server ignores today x
+    # the bytes after the head / the file asked for and its neighbours / the configuration), in batches of their own
+    batches += X.feature_batches(rng.fork('c04-audit2'), tier)
+    batches += X.repeat_batches(rng.fork('c04-repeat'), tier)
     return batches
 
 def Case_read_error(tree):
@@ -164,11 +171,15 @@ def mask_returned(line):
 
 def judge(res, results, status_table=None):
     for c, r, il, ml in results:
+        if c.kind.startswith('retree'):
+            # not a request: the harness rebuilt the tree of a history batch in place
+            if r['head'] != 'ok': res.notes.append(f'history batch: the tree could not be rebuilt ({c.kind}: {r["head"][:40]})')
+            continue
         res.evaluations += 1
         res.programs += 1 if ml is not None else 0
         res.count(f'{c.entry} {c.kind.split(":")[0]}')
         res.distinct.add(hash((c.entry, c.raw, c.app, c.ws, c.flush, c.alloc)))
-        if ml is not None and il != ml and c.note not in ('no-model-input', 'kernel-limit-not-modelled') and mask_returned(il) != mask_returned(ml):
+        if ml is not None and il != ml and c.note not in ('no-model-input', 'kernel-limit-not-modelled', 'open-finding-i32-log-sum') and mask_returned(il) != mask_returned(ml):
             res.disagree(c.line[:400], il[:400], ml[:400], 'Server.process' if c.entry == 'proc' else 'Server.process_request')
         head = K.judge_common(res, c, r, 'C04')
         if head is None: continue
@@ -203,23 +214,46 @@ def firstword(raw):
     try: return raw.split(b'\n', 1)[0].decode('utf-8').strip(K.RUST_WS).split(' ', 1)[0]
     except Exception: return '?'
 
+def lower_fd_limit(n=X.FD_LIMIT):
+    """the harness processes inherit the soft limit of open files of this process: under a small one a descriptor that an answer path forgets to close
+    shows within one batch (vlib/gen_c04.py `repeat_batches` sends every path REPEATS > n times through one process).  This process itself holds two or
+    three descriptors per harness / model process it is talking to: the limit stays untouched on a machine with so many CPUs that this comes near n"""
+    try:
+        import resource
+        soft, hard = resource.getrlimit(resource.RLIMIT_NOFILE)
+        if 3 * (C.NCPU + 8) + 40 < n and (soft == resource.RLIM_INFINITY or soft > n):
+            resource.setrlimit(resource.RLIMIT_NOFILE, (n, hard))
+            return lambda: resource.setrlimit(resource.RLIMIT_NOFILE, (soft, hard))
+    except Exception:
+        pass
+    return lambda: None
+
 def run(res, tier, seed):
     import threading
     rng = C.Rng(seed)
     batches = build(rng, tier)
     # other configurations (every batch of one run_batches call shares its env): started first, they run beside the main campaign
-    confs = X.config_batches(rng.fork('c04-config'), tier)
+    confs = X.config_batches(rng.fork('c04-config'), tier) + X.feature_config_batches(rng.fork('c04-config2'), tier)
     conf_results = [None] * len(confs)
     def conf_work(i):
         pairs, tree, cases = confs[i]
         conf_results[i] = K.run_batches([(tree, cases)], with_model=WITH_MODEL, env=pairs)
-    ts = [threading.Thread(target=conf_work, args=(i,)) for i in range(len(confs))]
-    for t in ts: t.start()
-    results = K.run_batches(batches, with_model=WITH_MODEL)
-    for t in ts: t.join()
+    # histories (second audit pass): one process answers the same targets again after the tree changed under it; oracle only (the model keeps no state)
+    hist = X.history_batches(rng.fork('c04-history'), tier)
+    hist_results = []
+    def hist_work(): hist_results.extend(K.run_batches(hist, with_model=False))
+    ts = [threading.Thread(target=conf_work, args=(i,)) for i in range(len(confs))] + [threading.Thread(target=hist_work)]
+    restore = lower_fd_limit()
+    try:
+        for t in ts: t.start()
+        results = K.run_batches(batches, with_model=WITH_MODEL)
+        for t in ts: t.join()
+    finally:
+        restore()
     for cr in conf_results: results += cr
+    results += hist_results
     judge(res, results)
-    for tree in [t for t, _ in batches] + [t for _, t, _ in confs]:
+    for tree in [t for t, _ in batches] + [t for _, t, _ in confs] + [t for t, _ in hist]:
         if not tree.setup_ok: res.notes.append('tree setup failed for a batch')
     res.rule = ('requests = valid grammar-derived (9 methods x paths of the generated tree, built-in routes, form endpoints, 0..6 headers '
                 'incl. hostile Origin/Range/Content-Length values) | targets not in origin form | 1..2 structure-unaware mutations of a valid '
@@ -230,7 +264,14 @@ def run(res, tier, seed):
                 'shapes, ranges relative to the size of the file through every lookup step, multipart grammar (dispositions, part bodies, part headers, '
                 'delimiters, boundary parameter, buffer end at every tail position), form / query shapes, endpoints x methods, failing and empty-answer '
                 'handlers x methods, transport scripts (short writes, write / flush errors) on every answer path, request buffer cut at every position, '
-                'served trees whose own pages are directories / empty / links / dangling / loops, CORS-list and small-buffer configurations; '
+                'served trees whose own pages are directories / empty / links / dangling / loops, CORS-list and small-buffer configurations | second audit '
+                'pass (relations a feature added on this path would hinge on): values whose every byte offset is inside a character at every header / target / '
+                'query / form / handler-message place, precompressed neighbours of every shape x Accept-Encoding x Range, validators (dates with a '
+                'multi-byte character across every offset, entity tags, pairs) x lookup step x Range, numbers in 26 headers, Expect and Content-Length '
+                'relative to the bytes after the head and to the buffer, Connection x version x a second request after the first, Transfer-Encoding x '
+                'chunk shapes, proxy / Host / credential / cookie / digest / Upgrade / negotiation headers, files around 4 KiB..1 MB and thousands of parts, '
+                'small buffers x all of these, every file-touching answer path 224 times in one process under a 192-descriptor limit, and (oracle only) '
+                'the same targets again after the tree changed under the process; '
                 'distinct = distinct (entry, request bytes, handler, transport script, buffer size)')
     for c, r, il, ml in results[:3]:
         res.sample({'entry': c.entry, 'request': c.raw[:120].decode('latin1'), 'result': r['head'][:40], 'response_head': r['recv'][:60].decode('latin1')})
